@@ -133,8 +133,11 @@ async fn verif_model_prunable_batch() {
         let events = EventChannel::new();
         let mut worker = Worker::new(PrunerArgs {
             daser: Arc::new(daser), store: store.clone(), blockstore: Arc::new(InMemoryBlockstore::new()), event_pub: events.publisher(),
-            block_time: Duration::from_secs(1), pruning_window: Duration::from_secs(60), sampling_window: Duration::from_secs(120),
+            block_time: Duration::from_millis(1), pruning_window: Duration::from_secs(60), sampling_window: Duration::from_secs(120),
         }, CancellationToken::new());
+        // two calls on the same worker: the second one goes through the cached window edges (refreshed after block_time)
+        for call in 0..2 {
+        if call == 1 { lumina_utils::time::sleep(Duration::from_millis(3)).await; }
         let batch = match worker.get_next_prunable_batch(sampling_cutoff, pruning_cutoff).await {
             Ok(b) => b,
             Err(e) => { println!("WITNESS C35: get_next_prunable_batch failed: {e} (seed {seed}, round {round})"); panic!("witness"); }
@@ -144,7 +147,7 @@ async fn verif_model_prunable_batch() {
         for x in 1..=n + 20 {
             if !batch.contains(x) { continue; }
             checked += 1;
-            let ctx = format!("stored={stored} pruned={pruned} sampled={sampled} sampling cut-off=first+{}s pruning cut-off=first+{}s (seed {seed}, round {round})",
+            let ctx = format!("call {call}: stored={stored} pruned={pruned} sampled={sampled} sampling cut-off=first+{}s pruning cut-off=first+{}s (seed {seed}, round {round})",
                 (sampling_cutoff.duration_since(first).map(|d| d.as_secs() as i64).unwrap_or(-1)), (pruning_cutoff.duration_since(first).map(|d| d.as_secs() as i64).unwrap_or(-1)));
             if !stored.contains(x) { println!("WITNESS C35: height {x} is in the batch but not stored; {ctx}"); panic!("witness"); }
             let t = times[&x];
@@ -154,6 +157,7 @@ async fn verif_model_prunable_batch() {
                 if !synced(x - 1) && x > 1 || !synced(x + 1) || x == 1 { println!("WITNESS C35: height {x} is inside the sampling window and borders an unsynced gap but is in the batch; {ctx}"); panic!("witness"); }
             }
             if !sampled.contains(x) && !grants(x) { println!("WITNESS C35: height {x} is unsampled and the daser refused it, but it is in the batch; {ctx}"); panic!("witness"); }
+        }
         }
     }
     println!("ENUM-OK cases={checked}");
